@@ -44,7 +44,11 @@ class Spec(unit.UnitSpec):
         for g in out.split(";"):
             k, ln, items = g.split(":")
             items = items.strip("[]")
-            gs.append((int(k), int(ln), [int(x) for x in items.split(",")] if items else []))
+            # `len` as read before the group is iterated / after one item was pulled / after the group was exhausted:
+            # printed as one number when the three agree, else `a/b/c`
+            lns = [int(x) for x in ln.split("/")]
+            its = [int(x) for x in items.split(",")] if items else []
+            gs.append((int(k), lns[0] if len(set(lns)) == 1 else next((x for x in lns if x != len(its)), lns[0]), its))
         return gs
 
     def oracle(self, case, impl_out):
@@ -64,7 +68,8 @@ class Spec(unit.UnitSpec):
         if any(a[0] == b[0] for a, b in zip(gs, gs[1:])):
             bad.append(("revgroup:maximal", "adjacent groups share a key"))
         if any(ln != len(it) for _, ln, it in gs):
-            bad.append(("revgroup:len", "reported len differs from item count"))
+            bad.append(("revgroup:len", "a group's reported len differs from its item count (len is read before iterating the group, "
+                                        "after pulling one item, and after exhausting it): " + out[:200]))
         return bad
 
     def nontrivial(self, case, out):
